@@ -55,14 +55,14 @@ CHECKS = {
  "C08": dict(level="exploration", design="5/C08", technique="TLA+ term universe (Hasher) enumerated by TLC: the digest must be a function of the term and injective on terms; every term built in several construction orders / aliasing variants and hashed with md5 and sha1 under several PYTHONHASHSEED",
              text="Exhaustive over ~12k terms (depth <= 2, <= 2 elements per container): all digests of one term coincide over 3 construction orders, shared vs distinct string objects and 3-4 hash seeds; all-pairs discrimination by bucketing digests.",
              note="The specification defines the universe and value identity; the digests come from the implementation. Open finding D17 (aliased tuples)."),
- "C17": dict(level="model_checking", design="5/C17", technique="TLA+ ConfigScope (per-thread stacks of frames, resolution and backend-kind rules) model-checked by TLC; TLC-generated enter/exit programs replayed on two real threads, every thread observing Parallel with 9 explicit-argument variants after every step",
+ "C17": dict(level="model_checking", design="5/C17", technique="TLA+ ConfigScope (per-thread stacks of frames, resolution and backend-kind rules, process-wide default backend kind, availability of process backends) model-checked by TLC; TLC-generated enter/exit programs replayed on two real threads, every thread observing Parallel with 9 explicit-argument variants after every step",
              text="Isolation/restoration/sharedmem/explicit-backend rules are checked on the model; all programs of 3 actions (exhaustive in thorough) and simulated programs up to depth 4 are replayed and every resolved setting compared with the specification.",
              note="Trusted base: TLC; backend names are bound to recording backends via register_parallel_backend. Open finding D11 (context n_jobs lost when threads are forced)."),
 
- "C10": dict(level="fault_enumeration", design="5/C10", technique="TLA+ LokyExecutor (workers, call queue, result-pipe lock, manager thread with sentinel snapshots, broken flag) checked by TLC incl. liveness NoHang; fault scenarios (stage x signal x victims x with-block) executed against the real loky backend",
+ "C10": dict(level="fault_enumeration", design="5/C10", technique="TLA+ LokyExecutor (workers, call queue, result-pipe lock, manager thread with sentinel snapshots, exit-code collection, two-step terminate_broken, kill tree + join, broken flag) checked by TLC incl. liveness NoHang; fault scenarios (stage x signal x victims x with-block x SIGCHLD disposition, workers with children) executed against the real loky backend",
              text="The executor model is checked for NoHang / NoPartialResults / FailsOnlyOnFault with kills at every worker state; 43 (quick) to ~130 (thorough) real scenarios kill workers at exact life-cycle stages and check prompt TerminatedWorkerError, no partial results, one failing call per fault, healthy following calls.",
              note="Trusted base: TLC; stages are hit without timing except 'while sending'; watchdog 40 s per call."),
- "C15": dict(level="model_checking", design="5/C15", technique="TLA+ NJobs (cpu_count / effective n_jobs table, nesting machine) checked and enumerated by TLC; every row evaluated under a real affinity mask; gated tasks measure the concurrency high-water mark; nested Parallel programs report pids and backends",
+ "C15": dict(level="model_checking", design="5/C15", technique="TLA+ NJobs (cpu_count / effective n_jobs table, nesting machine) checked and enumerated by TLC; every row evaluated under a real affinity mask; gated tasks measure the concurrency high-water mark; TLA+ ExecutorResize (reusable executor over histories of n_jobs: replace / three-step resize, sentinels, idle time-outs) model-checked, its histories replayed with gated tasks; nested Parallel programs report pids and backends",
              text="All rows of the arithmetic table (affinity x LOKY_MAX_CPU_COUNT x backend x n_jobs in [-2c, 2c]) are compared with the real functions; high-water mark <= resolved n_jobs on threading/loky/multiprocessing; nested calls (depth 2-3) never create processes below level 0.",
              note="Trusted base: TLC; quiescence detection for the high-water mark (count stable for 1-1.5 s); cgroup quota assumed non-binding."),
  "C19": dict(level="exploration", design="5/C19", technique="TLA+ ArrayLayout (padding arithmetic for every file position, memmap admissibility) enumerating dtype x shape x layout x compressor x mmap_mode x container; real dump/load and loky auto-memmapping under python3-vt compared with the original arrays",
